@@ -1,20 +1,56 @@
-"""Correspondence between praatio's save/parse code and the Lean models (emitters, _prepTgForSaving, parsers).
-Until the Lean side of an operation exists its cases are oracle-only: encode -> 'skip', render -> 'ok skip'."""
-import contextlib
-import io
+"""Correspondence between praatio's save/parse code and the Lean models (lean/PraatModel/Save.lean, Read.lean,
+driver ops in RunIO.lean).  Cases:
+
+  {"op": "emit",  "tg", "fmt", "blanks", "min", "max", "minlen"}   text written by _prepTgForSaving + the text emitters
+  {"op": "prep",  "tg", "blanks", "min", "max", "minlen"}          the prepared tiers (fill-in, sliver absorption)
+  {"op": "parse", "text", "iei"}                                   what the text parsers return (numerals as strings)
+  {"op": "u_num" | "u_text" | "u_split" | "u_fetchtext" | "u_fetchrow", ...}   matcher units against `re` / the real helpers
+
+Every other op is oracle-only: encode -> 'skip', render -> 'ok skip'.
+"""
+import copy
+import re
 
 from praatio.utilities import textgrid_io
+from praatio.data_classes import textgrid as dtextgrid
 import tiers as T
+import tgops
 
-HAVE_MODEL = False
+MODEL_OPS = {"emit", "prep", "parse", "u_num", "u_text", "u_split", "u_fetchtext", "u_fetchrow"}
+
+
+def times_of(c):
+    g = c["tg"]
+    ts = [g["lo"], g["hi"], c.get("min"), c.get("max")]
+    for t in g["tiers"]:
+        ts += [t["lo"], t["hi"]]
+        for e in t["es"]:
+            ts += e[:-1]
+    return sorted({float(x) for x in ts if x is not None})
 
 
 def encode(c, enc):
-    return "skip"
-
-
-def render(c, r, enc):
-    return "ok skip"
+    op = c["op"]
+    if op not in MODEL_OPS:
+        return "skip"
+    if op in ("emit", "prep"):
+        head = f"{tgops.enc_tg(enc, c['tg'])} {enc.b(c['blanks'])} {enc.otime(c.get('min'))} {enc.otime(c.get('max'))} {enc.otime(c.get('minlen'))}"
+        if op == "prep":
+            return "prep " + head
+        table = times_of(c)
+        tab = " ".join(f"{enc.time(x)} {enc.time(float(int(x)))} {enc.s(repr(x))} {enc.s('%d' % x)}" for x in table)
+        return f"emit {c['fmt']} {head} {len(table)} {tab}".rstrip()
+    if op == "parse":
+        return f"parse {enc.s(c['text'])} {enc.b(c['iei'])}"
+    if op == "u_num":
+        return f"u_num {enc.s(c['s'])} {enc.s(c['kw'])} {enc.b(c['neg'])}"
+    if op == "u_text":
+        return f"u_text {enc.s(c['s'])} {enc.s(c['kw'])} {enc.b(c['dotall'])}"
+    if op == "u_split":
+        return f"u_split {enc.s(c['s'])} {enc.s(c['kw'])}"
+    if op in ("u_fetchtext", "u_fetchrow"):
+        return f"{op} {enc.s(c['s'])} {c['i']}"
+    raise KeyError(op)
 
 
 def impl_parse(text, iei):
@@ -25,3 +61,111 @@ def impl_parse(text, iei):
                 "tiers": [{"class": t["class"], "name": t["name"], "xmin": t["xmin"], "xmax": t["xmax"],
                            "entries": [list(e) for e in t["entries"]]} for t in d["tiers"]]}
     return T.call(run)
+
+
+PATTERNS = {
+    ("xmin", True): r"xmin ?= ?-?([\d.]+(?:[eE][-+]?\d+)?)\s*$",
+    ("xmax", False): r"xmax ?= ?([\d.]+(?:[eE][-+]?\d+)?)\s*$",
+    ("number", True): r"number ?= ?-?([\d.]+(?:[eE][-+]?\d+)?)\s*$",
+}
+
+
+def source_patterns():
+    """the regular expressions as they stand in /repo's current textgrid_io.py (so that the unit cases follow the code)"""
+    import inspect
+    src = inspect.getsource(textgrid_io._parseNormalTextgrid)
+    return set(re.findall(r'r"([^"\n]*\\s\*\$)"', src)) | set(re.findall(r"r'([^'\n]*\\s\*\$)'", src))
+
+
+def impl(c):
+    op = c["op"]
+    if op == "emit":
+        g = tgops.build(c["tg"])
+        return T.call(lambda: textgrid_io.getTextgridAsStr(dtextgrid._tgToDictionary(g), c["fmt"], c["blanks"], c.get("min"), c.get("max"), c.get("minlen")))
+    if op == "prep":
+        g = tgops.build(c["tg"])
+
+        def run():
+            d = textgrid_io._prepTgForSaving(dtextgrid._tgToDictionary(g), c["blanks"], c.get("min"), c.get("max"), c.get("minlen"))
+            return {"lo": d["xmin"], "hi": d["xmax"],
+                    "tiers": [{"k": "I" if t["class"] == "IntervalTier" else "P", "name": t["name"], "lo": float(t["xmin"]), "hi": float(t["xmax"]),
+                               "es": [[float(x) for x in e[:-1]] + [e[-1]] for e in t["entries"]]} for t in d["tiers"]]}
+        return T.call(run)
+    if op == "parse":
+        return impl_parse(c["text"], c["iei"])
+    if op == "u_num":
+        pat = c["kw"] + r" ?= ?" + ("-?" if c["neg"] else "") + r"([\d.]+(?:[eE][-+]?\d+)?)\s*$"
+        m = re.search(pat, c["s"], flags=re.MULTILINE | re.ASCII if c.get("ascii") else re.MULTILINE)
+        return ("ok", None if m is None else m.groups()[0])
+    if op == "u_text":
+        pat = c["kw"] + r' ?= ?"(.*)"\s*$'
+        m = re.search(pat, c["s"], flags=(re.MULTILINE | re.DOTALL) if c["dotall"] else re.MULTILINE)
+        return ("ok", None if m is None else m.groups()[0])
+    if op == "u_split":
+        return ("ok", re.split(c["kw"] + r" ?\[", c["s"], flags=re.MULTILINE))
+    if op == "u_fetchtext":
+        return T.call(lambda: textgrid_io._fetchTextRow(c["s"], c["i"]))
+    if op == "u_fetchrow":
+        return T.call(lambda: textgrid_io._fetchRow(c["s"], c["i"]))
+    raise KeyError(op)
+
+
+def render(c, r, enc):
+    op = c["op"]
+    if op not in MODEL_OPS:
+        return "ok skip"
+    if r[0] == "err":
+        return "err " + r[1]
+    v = r[1]
+    if op == "emit":
+        return "ok " + enc.s(v)
+    if op == "prep":
+        return "ok " + tgops.enc_tg(enc, v)
+    if op == "parse":
+        out = [enc.s(repr(float(v["xmin"]))), enc.s(repr(float(v["xmax"]))), str(len(v["tiers"]))]
+        for t in v["tiers"]:
+            out += [enc.s(t["class"]), enc.s(t["name"]), enc.s(repr(float(t["xmin"]))), enc.s(repr(float(t["xmax"]))), str(len(t["entries"]))]
+            for e in t["entries"]:
+                out += [str(len(e))] + [enc.s(str(x)) for x in e]
+        return "ok " + " ".join(out)
+    if op in ("u_num", "u_text"):
+        return "ok none" if v is None else "ok some " + enc.s(v)
+    if op == "u_split":
+        return "ok " + " ".join([str(len(v))] + [enc.s(p) for p in v])
+    if op in ("u_fetchtext", "u_fetchrow"):
+        return f"ok {enc.s(v[0])} {v[1]}"
+    raise KeyError(op)
+
+
+def canon(c, line):
+    """numeric header fields of a parse result are compared as numbers: the model carries the numeral text, the code
+    float()s it; error cases of keyword-bearing files are compared only as 'raises'"""
+    if c.get("anyerr") and line.startswith("err"):
+        return "err"
+    if c["op"] != "parse" or not line.startswith("ok "):
+        return line
+    from proto import unhex, Enc
+    toks = line.split(" ")[1:]
+
+    def fl(tok):
+        return Enc.s(repr(float(unhex(tok))))
+
+    def iof(tok):
+        # utils.strToIntOrFloat, then float(): '-0' becomes int 0, i.e. 0.0
+        t = unhex(tok)
+        v = float(t) if ("." in t or "e" in t.lower()) else int(t)
+        return Enc.s(repr(float(v)))
+    try:
+        out = [fl(toks[0]), fl(toks[1]), toks[2]]
+        p = 3
+        for _ in range(int(toks[2])):
+            n = int(toks[p + 4])
+            out += [toks[p], toks[p + 1], iof(toks[p + 2]), iof(toks[p + 3]), toks[p + 4]]
+            p += 5
+            for _ in range(n):
+                k = int(toks[p])
+                out += toks[p:p + 1 + k]
+                p += 1 + k
+        return "ok " + " ".join(out)
+    except ValueError:
+        return "err" if c.get("anyerr") else "err ValueError"
